@@ -7,7 +7,13 @@ from pyvc.contracts import (Any, Bool, Bytes, BytesN, Inst, Int, IntRange, ListO
 
 ENVIRONMENT = [
     'UUID objects live in a record heap (ghost.uuid_heap); the registry UUID.UUIDS is the symbolic-length list ghost.uuids of '
-    'references into it: any length, any content satisfying the class invariant len(uuid_bytes) in {2,4,16}',
+    'references into it: any length, any content satisfying the class invariant len(uuid_bytes) in {2,4,16} (what UUID.__init__ / from_bytes establish)',
+    'a freshly allocated object (object.__new__) has an identity different from every live object; its fields are arbitrary until written',
+    'utils.crc_16 (L2CAP FCS) is a pure function with a 16-bit result (trusted contract, bit loop not re-derived)',
+    'str <-> UTF-8: a URL is known only by its UTF-8 encoding; str.encode and bytes.decode are inverse on valid UTF-8 (validity uninterpreted)',
+    'inside list comprehensions over symbolic-length sequences exceptions of the element expression are not modelled (not used by the lemmas of this file: '
+    'their lists have a concrete spine)',
+    'a DataElementParser that raised is abandoned (it is a local of DataElement.from_bytes / parse_from_bytes): nothing is claimed about offset / depth after an exception',
 ]
 
 # ---------------------------------------------------------------------------
